@@ -37,6 +37,13 @@ def gen(rng, tier):
                 srow[good] = F(rng.randint(8, 16), 2); srow[1 - good] = -F(rng.randint(8, 16), 2); srow[2] = F(rng.randint(2, 4), 2)
         bs = gen_beliefs(rng, S, 6)
         out.append("solve ls %s %d %s %d %s" % (rng.choice(["dense", "dense", "sparse", "generic"]), rng.choice([1, 2, 2]), fmt_pomdp(m), len(bs), " ".join(Qs(b) for b in bs)))
+    # many observations: the merge schedule of IncrementalPruning has forward passes that do not start at list 0
+    # only from seven observations on (the schedule theorem covers every n; the correspondence must see them too)
+    for k in range({"quick": 14, "thorough": 50, "search": 30}[tier]):
+        O = rng.choice([5, 6, 7, 7, 8, 9, 11, 12, 13, 16])
+        m = gen_pomdp(rng, 2, 2, O, gammas=(F(1, 2), F(3, 4)))
+        bs = gen_beliefs(rng, 2, 4)
+        out.append("solve %s %s 2 %s %d %s" % (rng.choice(["ip", "ip", "wit"]), rng.choice(["dense", "sparse"]), fmt_pomdp(m), len(bs), " ".join(Qs(b) for b in bs)))
     # one solver object, two problems in a row (different sizes and horizons): nothing may carry over
     for k in range({"quick": 30, "thorough": 120, "search": 60}[tier]):
         alg = rng.choice(["ip", "wit", "wit", "ls"])
